@@ -22,7 +22,7 @@ def make_cases(chk):
     cases = []
     ops = ["compose_f_schema", "compose_f_schema", "compose_t_schema", "compose_f_tree", "compose_t_tree", "apply_func",
            "elim", "elim", "elim", "binop", "reduce", "neg", "remove_axes"]
-    for i in range(260 if quick else 5000):
+    for i in range(260 if quick else 20000):
         scale = None if i % 4 else rng.choice([FR(10**6), FR(3 * 10**6), FR(10**7), FR(10**8)])
         h = Hist("h%d" % i, rng, max_ops=5 if quick else 6, ops=ops, export_all=True, scale=scale)
         if "elim" not in h.word:
@@ -37,7 +37,7 @@ def mirror_cases(chk):
     rng = chk.rng
     quick = chk.tier == "quick"
     cases = []
-    for i in range(200 if quick else 4000):
+    for i in range(200 if quick else 20000):
         n = rng.choice([1, 2, 2, 3])
         rows = rng.choice([1, 2, 3, 4])
         kind = rng.choice(["random", "box", "empty", "zero-row", "unbounded", "scaled"])
